@@ -102,7 +102,7 @@ static int uid_of_unit(ABT_unit u)
 typedef struct {
     int id, kind /*0 ULT 1 tasklet*/, stat, nsteps;
     ABT_thread th;
-    volatile int begun, done, migdone;
+    volatile int begun, done, migdone, made;
 } wu_t;
 static wu_t U[MAXU + 1];
 static int g_nu, g_ns;
@@ -237,6 +237,24 @@ static void n_push(ABT_pool pool, ABT_unit u, ABT_pool_context c)
     x_push(pool, u);
 }
 static size_t n_get_size(ABT_pool pool) { return x_size(pool_index(pool)); }
+static void n_push_many(ABT_pool pool, const ABT_unit *units, size_t num, ABT_pool_context c)
+{
+    (void)c;
+    for (size_t i = 0; i < num; i++)
+        x_push(pool, units[i]);
+}
+static void n_pop_many(ABT_pool pool, ABT_thread *threads, size_t max, size_t *num, ABT_pool_context c)
+{
+    (void)c;
+    size_t n = 0;
+    while (n < max) {
+        int s = x_pop_slot(pool_index(pool));
+        if (s < 0)
+            break;
+        threads[n++] = S[s].th;
+    }
+    *num = n;
+}
 /* legacy API */
 static ABT_unit l_create_from_thread(ABT_thread th)
 {
@@ -301,6 +319,8 @@ static void make_pool(int p)
         ABT_pool_user_def def;
         CHK(ABT_pool_user_def_create(x_create_unit, n_free_unit, n_is_empty, n_pop, n_push, &def));
         CHK(ABT_pool_user_def_set_get_size(def, n_get_size));
+        CHK(ABT_pool_user_def_set_push_many(def, n_push_many));
+        CHK(ABT_pool_user_def_set_pop_many(def, n_pop_many));
         CHK(ABT_pool_create(def, ABT_POOL_CONFIG_NULL, &P[p]));
         CHK(ABT_pool_user_def_free(&def));
         CHK(ABT_pool_set_data(P[p], &PD[p]));
@@ -345,6 +365,25 @@ static void cs_run(ABT_sched s)
     int cnt = 0;
     for (;;) {
         int p = cnt % NP;
+        if (p != 0 && rnd(4) == 0) {
+            /* bulk move: several work units at once into another pool */
+            ABT_thread ths[3];
+            size_t n = 0;
+            CHK(ABT_pool_pop_threads(P[p], ths, 3, &n));
+            if (n > 0) {
+                int tgt = 1 + rnd(NP - 1);
+                for (size_t i = 0; i < n; i++)
+                    EV("\"e\":\"SMove\",\"t\":%d,\"from\":%d,\"to\":%d,\"how\":3", tid_of_thread(ths[i]), p, tgt);
+                if (ABT_pool_push_threads(P[tgt], ths, n) != ABT_SUCCESS) {
+                    /* create_unit of the target failed for one of them: put every one back where it was */
+                    for (size_t i = 0; i < n; i++)
+                        while (ABT_pool_push_thread(P[p], ths[i]) != ABT_SUCCESS)
+                            ;
+                }
+            }
+            cnt++;
+            continue;
+        }
         ABT_unit unit = ABT_UNIT_NULL;
         CHK(ABT_pool_pop(P[p], &unit));
         if (unit != ABT_UNIT_NULL) {
@@ -417,7 +456,7 @@ static void look(int by, wu_t *w)
     abtv_atomic_end();
     EV("\"e\":\"Look\",\"by\":%d,\"t\":%d,\"u\":%d,\"back\":%d", by, w->id, uid, back);
 }
-static volatile int g_claim[MAXU + 1];
+static volatile int g_claim[MAXU + 1], g_reaped[MAXU + 1];
 static void create_unit_of(wu_t *w, int by);
 static void body(void *arg)
 {
@@ -433,7 +472,7 @@ static void body(void *arg)
         CHK(ABT_eventual_wait(g_ev, NULL));
     } else {
         for (int i = 0; i < w->nsteps; i++) {
-            int op = rnd(8);
+            int op = rnd(9);
             if (w->kind == 1 && (op == 0 || op == 3))
                 op = 2;
             switch (op) {
@@ -484,6 +523,15 @@ static void body(void *arg)
                             break;
                         }
                     break;
+                case 7:
+                    /* free a finished unit while others are creating: free_unit / unmap race with create_unit / map */
+                    for (int k = g_ns + 1; k <= g_nu; k++)
+                        if (k != w->id && U[k].done && U[k].made && U[k].th != ABT_THREAD_NULL && __sync_bool_compare_and_swap(&g_reaped[k], 0, 1)) {
+                            CHK(ABT_thread_free(&U[k].th));
+                            EV("\"e\":\"UFreed\",\"t\":%d", k);
+                            break;
+                        }
+                    break;
                 default:
                     if (w->kind == 0)
                         ABT_thread_yield();
@@ -520,7 +568,9 @@ static void create_unit_of(wu_t *w, int by)
         }
         EV("\"e\":\"UNew\",\"by\":%d,\"t\":%d,\"p\":%d,\"kind\":%d,\"ret\":%d,\"hnull\":%d", by, w->id, p, w->kind, r != ABT_SUCCESS, th == (w->kind ? ABT_TASK_NULL : ABT_THREAD_NULL));
         if (r == ABT_SUCCESS) {
-            w->th = th;
+            if (!g_reaped[w->id])
+                w->th = th;
+            w->made = 1;
             __sync_fetch_and_add(&g_created, 1);
             return;
         }
@@ -540,6 +590,7 @@ static void scenario(const char *name, uint64_t seed)
     slots_init();
     memset(U, 0, sizeof U);
     memset((void *)g_claim, 0, sizeof g_claim);
+    memset((void *)g_reaped, 0, sizeof g_reaped);
     memset((void *)g_failn, 0, sizeof g_failn);
     g_release = g_created = 0;
     CHK(ABT_init(0, NULL));
@@ -601,7 +652,7 @@ static void scenario(const char *name, uint64_t seed)
             look(0, &U[1 + rnd(g_ns)]);
     for (int i = g_ns + 1; i <= g_nu; i++) {
         create_unit_of(&U[i], 0);
-        while (U[i].th == ABT_THREAD_NULL) {
+        while (!U[i].made) {
             /* another unit (on another stream) is creating it right now */
             ABT_thread_yield();
             abtv_idle_hint();
@@ -611,6 +662,8 @@ static void scenario(const char *name, uint64_t seed)
     g_release = 1;
     CHK(ABT_eventual_set(g_ev, NULL, 0));
     for (int i = 1; i <= g_nu; i++) {
+        if (g_reaped[i])
+            continue; /* freed by another unit */
         CHK(ABT_thread_free(&U[i].th));
         EV("\"e\":\"UFreed\",\"t\":%d", i);
     }
